@@ -236,3 +236,46 @@ fn k_collect_btreemap_keys() {
         core::mem::forget(m); core::mem::forget(cx);
     }
 }
+
+// ---- std::collections::HashMap / HashSet.  The impls are generic over the hasher `S: 'static`, so they are instantiated with a trivial
+// hasher (SipHash, the default, is intractable for CBMC); keys and values / elements each hold a pointer.
+#[derive(Default)]
+pub(crate) struct H1(u64);
+impl core::hash::Hasher for H1 { fn finish(&self) -> u64 { self.0 } fn write(&mut self, b: &[u8]) { if let Some(x) = b.first() { self.0 = *x as u64; } } }
+pub(crate) struct KeyP<'gc>(pub u8, pub Gc<'gc, u8>);
+impl<'gc> PartialEq for KeyP<'gc> { fn eq(&self, o: &Self) -> bool { self.0 == o.0 } }
+impl<'gc> Eq for KeyP<'gc> {}
+impl<'gc> core::hash::Hash for KeyP<'gc> { fn hash<H: core::hash::Hasher>(&self, h: &mut H) { h.write(&[self.0]) } }
+unsafe impl<'gc> Collect<'gc> for KeyP<'gc> { fn trace<T: Trace<'gc>>(&self, cc: &mut T) { cc.trace(&self.1) } }
+type BH = core::hash::BuildHasherDefault<H1>;
+
+#[kani::proof]
+#[kani::unwind(6)]
+fn k_collect_std_hashmap() {
+    unsafe {
+        let cx = Context::new(); let mc = cx.mutation_context();
+        let g = mk(mc);
+        let mut m: std::collections::HashMap<KeyP, (G, W), BH> = std::collections::HashMap::default();
+        m.insert(KeyP(3, g[0]), (g[1], Gc::downgrade(g[2])));
+        let mut r = Rec::new(); m.trace(&mut r);
+        assert!(r.ns == 2 && r.nw == 1 && r.w[0] == a(g[2])
+            && ((r.s[0] == a(g[0]) && r.s[1] == a(g[1])) || (r.s[0] == a(g[1]) && r.s[1] == a(g[0]))), "[trace] std HashMap: key AND value, strong and weak");
+        assert!(nt::<std::collections::HashMap<u8, G, BH>>() && nt::<std::collections::HashMap<KeyP, u8, BH>>()
+            && !nt::<std::collections::HashMap<Static<u8>, u8, BH>>(), "[trace] std HashMap NEEDS_TRACE");
+        core::mem::forget(m); core::mem::forget(cx);
+    }
+}
+#[kani::proof]
+#[kani::unwind(6)]
+fn k_collect_std_hashset() {
+    unsafe {
+        let cx = Context::new(); let mc = cx.mutation_context();
+        let g = mk(mc);
+        let mut s: std::collections::HashSet<KeyP, BH> = std::collections::HashSet::default();
+        s.insert(KeyP(4, g[0]));
+        let mut r = Rec::new(); s.trace(&mut r);
+        assert!(r.ns == 1 && r.nw == 0 && r.s[0] == a(g[0]), "[trace] std HashSet elements");
+        assert!(nt::<std::collections::HashSet<KeyP, BH>>() && !nt::<std::collections::HashSet<Static<u8>, BH>>(), "[trace] std HashSet NEEDS_TRACE");
+        core::mem::forget(s); core::mem::forget(cx);
+    }
+}
